@@ -350,20 +350,22 @@ func (e *Engine) callContract(st *State, instr ssa.Instruction, fn *ssa.Function
 	}
 	old := st.snapshot()
 	e.applyModifies(st, env, c)
-	var rets []*Val
-	rs := fn.Signature.Results()
-	for i := 0; i < rs.Len(); i++ {
-		rets = append(rets, e.freshVal(st, short+".r", rs.At(i).Type()))
-	}
-	env.old = old
-	env.bindResults(fn, rets)
-	for _, en := range c.Ensures {
-		st.assume(e.evalBool(env, en))
-	}
 	if c.Trusted {
 		e.Assumed["trusted contract: "+fnKey(fn)] = true
 	}
-	k(st, resultVal(fn.Signature, rets))
+	e.contractCalls(st, instr, env, c.Calls, func(st *State, env *Env) {
+		var rets []*Val
+		rs := fn.Signature.Results()
+		for i := 0; i < rs.Len(); i++ {
+			rets = append(rets, e.freshVal(st, short+".r", rs.At(i).Type()))
+		}
+		env.old = old
+		env.bindResults(fn, rets)
+		for _, en := range c.Ensures {
+			st.assume(e.evalBool(env, en))
+		}
+		k(st, resultVal(fn.Signature, rets))
+	})
 }
 
 // pureContractApp models a pure contracted function as an uninterpreted
@@ -599,27 +601,31 @@ func (e *Engine) callIfaceContract(st *State, instr ssa.Instruction, m *types.Fu
 		e.emit(st, "pre", fmt.Sprintf("%s#%d", e.site(instr, "pre@"+short), i), e.evalBool(env, rq), "requires of "+short+": "+rq.Text+" "+e.posOf(instr.Pos()))
 	}
 	old := st.snapshot()
-	var rets []*Val
-	if c.Pure {
-		rets = e.ifaceMethodApp(st, m, recv, args)
-	} else {
-		e.applyModifies(st, env, c)
-		for i := 0; i < sig.Results().Len(); i++ {
-			rets = append(rets, e.freshVal(st, m.Name()+".r", sig.Results().At(i).Type()))
-		}
-	}
-	env.old = old
-	for i, r := range rets {
-		env.names[fmt.Sprintf("r%d", i)] = r
-		if n := sig.Results().At(i).Name(); n != "" && n != "_" {
-			env.names[n] = r
-		}
-	}
-	for _, en := range c.Ensures {
-		st.assume(e.evalBool(env, en))
-	}
 	e.Assumed["interface contract (A9): "+c.Key] = true
-	k(st, resultVal(sig, rets))
+	if !c.Pure {
+		e.applyModifies(st, env, c)
+	}
+	e.contractCalls(st, instr, env, c.Calls, func(st *State, env *Env) {
+		var rets []*Val
+		if c.Pure && len(c.Calls) == 0 {
+			rets = e.ifaceMethodApp(st, m, recv, args)
+		} else {
+			for i := 0; i < sig.Results().Len(); i++ {
+				rets = append(rets, e.freshVal(st, m.Name()+".r", sig.Results().At(i).Type()))
+			}
+		}
+		env.old = old
+		for i, r := range rets {
+			env.names[fmt.Sprintf("r%d", i)] = r
+			if n := sig.Results().At(i).Name(); n != "" && n != "_" {
+				env.names[n] = r
+			}
+		}
+		for _, en := range c.Ensures {
+			st.assume(e.evalBool(env, en))
+		}
+		k(st, resultVal(sig, rets))
+	})
 }
 
 // ---- defers ------------------------------------------------------------------
